@@ -1,15 +1,153 @@
 /-
-  Props.C09 — Cache is a size-bounded newest-wins map (work in progress: witness first).
+  Props.C09 — Cache is a size-bounded newest-wins map.
+
+  The cache is `Influx.Cache` (Model/Cache.lean, written from tsdb/engine/tsm1/cache.go,
+  ring.go, encoding.gen.go; valueType constants and `Value.Size()` regenerated from
+  /repo on every run).  The statement is `Spec.C09.holdsOn` (sequential histories) and
+  `Spec.C09.holdsOnConc` (recorded concurrent histories, decided by linearizability
+  against the same checker).
+
+  Result (sequential model, every history, unbounded):
+  * `C09_partial`: reads return the deduplicated union of snapshot and hot values,
+    newest wins (hot over snapshot, later write over earlier); a write over the limit
+    stores nothing; a type conflict rejects that key only; Snapshot / ClearSnapshot
+    follow the protocol; and the reported size equals the accounted size of the keys
+    and values held — EXCEPT that after a read (or `Deduplicate`) has compacted a
+    held list with superseded values the reported size may be too LARGE
+    (`Fail.sizeStaleAfterDedup`, DESIGN §6 F4).
+  * `C09_full_fails`: that exception is real: the full statement is false.
+  * `C09_holdsOn_partial`: the full statement for all histories in which no read
+    compacts superseded values.
+  Hypotheses of both: every batch entry carries at least one value of a defined
+  type (`validOps`), and the bytes ever written stay below 2^64 (`fits`).
+  * `linearizable_sound`: the run-time linearizability decision is sound.
 -/
-import Influx.Spec.C09
+import Influx.Lemmas.CacheStep
 
 namespace Influx.Props.C09
 open Influx.Cache Influx.Spec.C09
 open Influx.Generated.CacheConsts
 
+/-! ### hypotheses, decidable -/
+
+def validBatch (b : List (Key × List Value)) : Bool :=
+  b.all fun kv => !kv.2.isEmpty && kv.2.all (fun v => v.ty != 0)
+
+/-- every key of every write comes with at least one value, every value has a type -/
+def validOps (ops : List Op) : Bool :=
+  ops.all fun op => match op with
+    | .write b => validBatch b
+    | _ => true
+
+def opsBytes (ops : List Op) : Nat := (ops.map opBytes).sum
+
+/-- the bytes ever handed to the cache stay below 2^64 (no uint64 wrap) -/
+def fits (ops : List Op) : Bool := decide (opsBytes ops < W)
+
+/-- has a read / `Deduplicate` compacted superseded values anywhere along the trace? -/
+def compactedAlong (st : St) (i : Nat) : List (Op × Obs) → Bool
+  | [] => st.compacted
+  | x :: rest => st.compacted || compactedAlong (stepSt st i x).1 (i + 1) rest
+
+theorem validBatch_iff (b : List (Key × List Value)) : validBatch b = true → ValidBatch b := by
+  intro h kv hkv
+  simp only [validBatch, List.all_eq_true, Bool.and_eq_true, Bool.not_eq_true', bne_iff_ne, ne_eq] at h
+  have := h kv hkv
+  refine ⟨?_, this.2⟩
+  intro he; simp [he] at this
+
+/-! ### the main induction -/
+
+theorem check_runFrom (ops : List Op) : ∀ (c : Cache) (st : St) (B i : Nat), Inv c st B →
+    validOps ops = true → B + opsBytes ops < W →
+    (checkFrom st i (runFrom c ops)).all Fail.isStale = true ∧
+    (compactedAlong st i (runFrom c ops) = false → checkFrom st i (runFrom c ops) = []) := by
+  induction ops with
+  | nil => intro c st B i _ _ _; exact ⟨rfl, fun _ => rfl⟩
+  | cons op rest ih =>
+    intro c st B i inv hv hB
+    simp only [validOps, List.all_cons, Bool.and_eq_true] at hv
+    simp only [opsBytes, List.map_cons, List.sum_cons] at hB
+    have hvop : ValidOp op := by
+      cases op <;> simp only [ValidOp] <;> try trivial
+      exact validBatch_iff _ hv.1
+    have ok := step_ok inv i op hvop (by omega)
+    have ih' := ih (step c op).1 (stepSt st i (op, (step c op).2)).1 (B + opBytes op) (i + 1) ok.inv
+      (by simpa [validOps] using hv.2) (by simp only [opsBytes]; omega)
+    simp only [runFrom, checkFrom, compactedAlong]
+    rw [if_pos ok.fails.1]
+    refine ⟨?_, ?_⟩
+    · rw [List.all_append, ok.fails.1, ih'.1]; rfl
+    · intro hc
+      simp only [Bool.or_eq_false_iff] at hc
+      rw [ok.fails.2 hc.1, ih'.2 hc.2]; rfl
+
+/-- **C09, the part that holds for every history**: everything but the size clause
+    after a compacting read. -/
+theorem C09_partial (ops : List Op) (hv : validOps ops = true) (hf : fits ops = true) :
+    holdsOnExceptStale (run ops) = true := by
+  have := check_runFrom ops {} {} 0 0 (Inv.init 0 0) hv (by simpa [fits] using hf)
+  exact this.1
+
+/-- **C09 under explicit hypotheses**: the full statement for every history along
+    which no read or `Deduplicate` compacts superseded values.  What is missing for
+    the unconditional statement is exactly `C09_full_fails`. -/
+theorem C09_holdsOn_partial (ops : List Op) (hv : validOps ops = true) (hf : fits ops = true)
+    (hc : compactedAlong {} 0 (run ops) = false) : holdsOn (run ops) = true := by
+  have := check_runFrom ops {} {} 0 0 (Inv.init 0 0) hv (by simpa [fits] using hf)
+  simp only [holdsOn, check, run, List.isEmpty_iff]
+  exact this.2 hc
+
+/-- no failure other than the stale size is ever reported on a model trace -/
+theorem C09_no_other_failure (ops : List Op) (hv : validOps ops = true) (hf : fits ops = true)
+    (f : Fail) (hm : f ∈ check (run ops)) : ∃ i, f = .sizeStaleAfterDedup i := by
+  have := C09_partial ops hv hf
+  simp only [holdsOnExceptStale, List.all_eq_true] at this
+  have hs := this f hm
+  cases f <;> simp [Fail.isStale] at hs
+  exact ⟨_, rfl⟩
+
+/-! ### the clauses, stated on the model directly -/
+
+/-- `Values.Deduplicate` is the newest-wins canonical form: strictly ascending
+    timestamps, and for every timestamp the value that arrived last -/
+theorem C09_dedup_newest_wins (a : List Value) :
+    dedup a = canon a ∧ (dedup a).Pairwise (fun x y => x.t < y.t) ∧ ∀ t, lastAt (dedup a) t = lastAt a t :=
+  ⟨dedup_eq_canon a, dedup_sorted a, lastAt_dedup a⟩
+
+/-- a read merges snapshot and hot values; the hot value wins at a shared timestamp -/
+theorem C09_read_hot_wins (s h : List Value) (t : Int) :
+    lastAt (dedup (dedup s ++ dedup h)) t = (lastAt h t).or (lastAt s t) := by
+  rw [dedup_union, lastAt_canon, lastAt_append]
+
+/-- a write that would exceed the limit stores nothing and changes nothing -/
+theorem C09_over_limit_stores_nothing (c : Cache) (batch : List (Key × List Value)) (n : Nat)
+    (h : (c.writeMulti batch).2 = some (.limit n)) : (c.writeMulti batch).1 = c := by
+  unfold Cache.writeMulti at h ⊢
+  simp only at h ⊢
+  split
+  · rfl
+  · rename_i hn
+    rw [if_neg hn] at h
+    split at h <;> simp at h
+
+/-- a type conflict rejects that key only: the store after the per-key loop of
+    `WriteMulti` is the checker's `storeBatch` (conflicting keys skipped, all others
+    appended), the error flag is "some key conflicted", and the size is accounted -/
+theorem C09_conflict_that_key_only (batch : List (Key × List Value)) (s : Store) (size r : Nat)
+    (ok : StoreOK s) (hv : ValidBatch batch) (hs : size = acct (toHeld s) + r + batchSize batch)
+    (hW : size + keyBytes batch < W) :
+    toHeld (writeLoop batch s size false).1 = storeBatch batch (toHeld s) ∧
+    (writeLoop batch s size false).2.2 = anyConflict batch (toHeld s) ∧
+    (writeLoop batch s size false).2.1 = acct (storeBatch batch (toHeld s)) + r := by
+  have := writeLoop_spec batch s size false r ok hv hs hW
+  exact ⟨this.1, by simpa using this.2.2.2.1, this.2.2.1⟩
+
+/-! ### the full statement fails (DESIGN §6 F4) -/
+
 private def fv (t : Int) (p : String) : Value := ⟨t, valueTypeFloat64, p, 0⟩
 
-/-- DESIGN §6 F4: two writes at one timestamp, a read, then `Size()` -/
+/-- two writes at one timestamp, a read, then `Size()` -/
 def witnessStale : List Op :=
   [.write [([107], [fv 1 "a"])], .write [([107], [fv 1 "b"])], .size, .values [107], .size]
 
@@ -25,5 +163,91 @@ theorem C09_full_fails : ¬ ∀ ops : List Op, holdsOn (run ops) = true := by
   have := h witnessStale
   revert this
   decide
+
+set_option maxRecDepth 100000 in
+/-- the witness satisfies the hypotheses of `C09_partial` (it is not excluded by them) -/
+example : validOps witnessStale = true ∧ fits witnessStale = true := by decide
+
+/-! ### non-vacuity of the hypotheses of `C09_holdsOn_partial` -/
+
+/-- out-of-order writes to two keys, a snapshot, an overwrite in the hot store, reads,
+    a range delete, a failed and a successful clear -/
+def sampleOps : List Op :=
+  [.write [([107], [fv 3 "a", fv 1 "b"]), ([109], [⟨1, valueTypeInteger, "5", 0⟩])], .size, .snapshot,
+   .write [([107], [fv 2 "c"])], .values [107], .size, .delrange [[107]] 0 1, .clear false, .snapshot,
+   .clear true, .values [107], .size, .count]
+
+set_option maxRecDepth 100000 in
+example : validOps sampleOps = true ∧ fits sampleOps = true ∧ compactedAlong {} 0 (run sampleOps) = false := by
+  decide
+
+/-! ### soundness of the linearizability decision used on recorded histories -/
+
+theorem Call.same_comm (a b : Call) : a.same b = b.same a := by
+  unfold Call.same
+  rw [BEq.comm (a := a.thread), BEq.comm (a := a.index), BEq.comm (a := a.sub)]
+
+/-- a sequence of calls is accepted by the sequential statement from `st` -/
+def accepted (st : St) : List Call → Bool
+  | [] => true
+  | c :: rest =>
+    let r := stepSt st 0 (c.op, c.obs)
+    r.2.all Fail.isStale && accepted r.1 rest
+
+/-- if the decision procedure says "linearizable", there is an order of the calls that
+    is a permutation of them, never puts a call before one that had already responded
+    when it was invoked, and on which the sequential statement holds -/
+theorem linearizable_sound : ∀ (fuel : Nat) (st : St) (calls : List Call),
+    calls.Pairwise (fun a b => a.same b = false) →
+    linearizable fuel st calls = true →
+    ∃ order : List Call, order.Perm calls ∧ order.Pairwise (fun a b => ¬ b.ret < a.inv) ∧
+      accepted st order = true := by
+  intro fuel
+  induction fuel with
+  | zero =>
+    intro st calls _ h
+    simp only [linearizable, List.isEmpty_iff] at h
+    subst h
+    exact ⟨[], List.Perm.refl _, List.Pairwise.nil, rfl⟩
+  | succ fuel ih =>
+    intro st calls hd h
+    simp only [linearizable, Bool.or_eq_true, List.isEmpty_iff, List.any_eq_true, Bool.and_eq_true] at h
+    rcases h with h | ⟨c, hc, hmin, hfs, hrest⟩
+    · subst h; exact ⟨[], List.Perm.refl _, List.Pairwise.nil, rfl⟩
+    · have hd' : (calls.filter fun p => !p.same c).Pairwise (fun a b => a.same b = false) :=
+        hd.sublist List.filter_sublist
+      obtain ⟨order, hp, hrt, hacc⟩ := ih _ _ hd' hrest
+      refine ⟨c :: order, ?_, ?_, ?_⟩
+      · -- `c` is the only call with its identity
+        have hsplit : calls.Perm (c :: calls.filter fun p => !p.same c) := by
+          clear hrest hmin hfs ih hp hrt hacc hd'
+          induction calls with
+          | nil => simp at hc
+          | cons x xs ihx =>
+            have hpx := List.pairwise_cons.mp hd
+            rcases List.mem_cons.mp hc with rfl | hcx
+            · have hself : c.same c = true := by simp [Call.same]
+              have hxs : xs.filter (fun p => !p.same c) = xs := by
+                rw [List.filter_eq_self]
+                intro p hp
+                have := hpx.1 p hp
+                have hsym : p.same c = c.same p := Call.same_comm p c
+                simp [hsym, this]
+              simp [List.filter_cons, hself, hxs]
+            · have hne : x.same c = false := hpx.1 c hcx
+              have := ihx hpx.2 hcx
+              simp only [List.filter_cons, hne, Bool.not_false, if_true]
+              exact (List.Perm.cons x this).trans (List.Perm.swap c x _)
+        exact (List.Perm.cons c hp).trans hsplit.symm
+      · refine List.pairwise_cons.mpr ⟨?_, hrt⟩
+        intro b hb
+        have hbm := (List.mem_filter.mp (hp.subset hb))
+        have := (List.all_eq_true.mp hmin) b hbm.1
+        simp only [Bool.or_eq_true, Bool.not_eq_true', decide_eq_false_iff_not] at this
+        rcases this with h | h
+        · simp [h] at hbm
+        · exact h
+      · simp only [accepted, Bool.and_eq_true]
+        exact ⟨hfs, hacc⟩
 
 end Influx.Props.C09
